@@ -713,9 +713,16 @@ void token_split_on_char(token * t, const char * source, const char c) {
 		if (source[start + pos] == c) {
 			new = token_new(t->type, start + pos + 1, stop - (pos + 1));
 			new->next = t->next;
+			new->prev = t;
+
+			if (new->next) {
+				new->next->prev = new;
+			}
+
 			t->next = new;
 
-			t->len = pos;
+			// Length relative to the start of the piece being shortened
+			t->len = start + pos - t->start;
 
 			t = t->next;
 		}
